@@ -5,7 +5,8 @@ import PkVerif.Model.Attr
     pn <p>                                          p ∈ {0,1}
     claim <id> <p> <s> set|add|del <attr> <val> <date> <rk>
     delete <id> c<id>|p<p> <s> <date> <rk>
-    attr idx|inc|load <p> <attr> <T> <f>            T = z | seconds ; f = a | 0 | 1 | u
+    attr idx|inc|load <p> <attr> <T> <f>            T = z | <date> ; f = a | 0 | 1 | u
+                                                    <date> = seconds[.fraction, 1–9 digits, no trailing 0]
     vals inc|load <p> <attr> <T> <f>
     has inc|load <p> <attr> <val> <T>
     via inc|load <p> <T> <f>
@@ -19,8 +20,9 @@ open Pk Pk.Attr
 
 /-- the harness checks that the wall clock lies between the past dates (< 1.7·10⁹) and the future
 dates (> 4·10⁹) it generates; any `now` in between gives the same answers -/
-def nowC : Nat := 3000000000
-def maxTime : Nat := 9999999999
+def nowC : Nat := 3000000000 * nsPerSec
+/-- largest second of the protocol -/
+def maxTime : Nat := 9000000000
 
 def natArg (s : String) (max : Nat) : Option Nat :=
   let cs := s.toList
@@ -75,12 +77,28 @@ def sArg (s : String) : Option Nat :=
   | "1" => some 1
   | _ => none
 
+/-- a time: <seconds> or <seconds>.<1–9 digits, the last one not 0>, seconds in 1..maxTime; the value is
+in nanoseconds -/
+def timeArg (s : String) : Option Nat :=
+  let secOf (a : String) : Option Nat :=
+    match natArg a maxTime with
+    | some 0 => none
+    | some v => some (v * nsPerSec)
+    | none => none
+  match s.splitOn "." with
+  | [a] => secOf a
+  | [a, fr] =>
+    let cs := fr.toList
+    if cs.isEmpty || cs.length > 9 || !cs.all (fun c => c.isDigit) || cs.getLast? == some '0' then none
+    else
+      match secOf a with
+      | some v => some (v + cs.foldl (fun n c => n * 10 + (c.toNat - 48)) 0 * 10 ^ (9 - cs.length))
+      | none => none
+  | _ => none
+
 def tArg (s : String) : Option (Option Nat) :=
   if s == "z" then some none
-  else match natArg s maxTime with
-    | some 0 => none
-    | some v => some (some v)
-    | none => none
+  else (timeArg s).map some
 
 /-- a | 0 | 1 | u (a key id nobody signed with: signer number 2) -/
 def fArg (s : String) : Option (Option Nat) :=
@@ -142,9 +160,9 @@ def step (w : World) (ws : List String) : World × String :=
      | none => (w, "bad-op"))
   | ["claim", id, p, s, kind, attr, val, date, rk] =>
     (match opt6 (natArg id (2 ^ 30)) (pnArg w p) (sArg s) (kindArg kind) (textArg attr) (textArg val),
-           natArg date maxTime, natArg rk (2 ^ 48) with
+           timeArg date, natArg rk (2 ^ 48) with
      | some (id, p, s, kind, attr, val), some date, some rk =>
-       if date = 0 || attr = [] then (w, "bad-op")
+       if attr = [] then (w, "bad-op")
        else if w.claims.any (fun c => c.pn == p && c.signer == s && decide (c.kind = kind) && c.attr == attr
             && c.val == val && c.date == date) then (w, "bad-op")
        else
@@ -153,10 +171,9 @@ def step (w : World) (ws : List String) : World × String :=
           | none => (w, "bad-op"))
      | _, _, _ => (w, "bad-op"))
   | ["delete", id, tgt, s, date, rk] =>
-    (match natArg id (2 ^ 30), tgtArg w tgt, sArg s, natArg date maxTime, natArg rk (2 ^ 48) with
+    (match natArg id (2 ^ 30), tgtArg w tgt, sArg s, timeArg date, natArg rk (2 ^ 48) with
      | some id, some tgt, some s, some date, some rk =>
-       if date = 0 then (w, "bad-op")
-       else if w.dels.any (fun d => decide (d.target = tgt) && d.signer == s && d.date == date) then (w, "bad-op")
+       if w.dels.any (fun d => decide (d.target = tgt) && d.signer == s && d.date == date) then (w, "bad-op")
        else
          (match w.addDelete ⟨tgt, id, s, date, rk⟩ with
           | some w' => (w', "ok")
